@@ -76,15 +76,33 @@ Range(s) == {s[i] : i \in 1..Len(s)}
 
 (* ---------------- the graph side ---------------- *)
 
+\* Dependencies are declared from either end: module_depends(d) in the constructor of m ("m depends on d": c.deps[m]),
+\* or module_antidepends(q) in the constructor of a back-end p ("p is a back-end provider for q and must be unloaded
+\* after it", README; "treated as a dependency of that module", module.h: q depends on p; c.anti[p], optional field).
 \* edges out of a module that cannot be loaded are never declared
-Succ(c, m) == IF m \in c.missing THEN {} ELSE Range(c.deps[m])
+AntiSeq(c, p) == IF "anti" \in DOMAIN c THEN c.anti[p] ELSE <<>>
+Decl(c, m) == IF m \in c.missing THEN {} ELSE Range(c.deps[m])
+\* loading m makes the loader load these too
+Pull(c, m) == IF m \in c.missing THEN {} ELSE Range(c.deps[m]) \cup Range(AntiSeq(c, m))
+
+RECURSIVE PullClosure(_, _)
+PullClosure(c, S) == LET T == S \cup UNION {Pull(c, m) : m \in S}
+                     IN  IF T = S THEN S ELSE PullClosure(c, T)
+
+\* modules named in the configuration or pulled in by others
+Needed(c) == PullClosure(c, Range(c.list))
+
+\* what m depends on: what it names itself, and the loaded back-ends that name it
+Succ(c, m) == Decl(c, m) \cup {p \in Needed(c) \ c.missing : m \in Range(AntiSeq(c, p))}
 
 RECURSIVE Closure(_, _)
 Closure(c, S) == LET T == S \cup UNION {Succ(c, m) : m \in S}
                  IN  IF T = S THEN S ELSE Closure(c, T)
 
-\* modules named in the configuration or pulled in by others
-Needed(c) == Closure(c, Range(c.list))
+\* A consumer that a back-end pulls in while the back-end's own constructor is still running cannot have "its
+\* dependencies fully constructed before it finishes constructing" if it (or something it pulls in, from either end) names
+\* that back-end with module_depends() as well: such contradictory declarations are outside the contract.
+Consistent(c) == \A p \in 1..c.n : \A q \in Range(AntiSeq(c, p)) : \A r \in PullClosure(c, {q}) : p \notin Decl(c, r)
 
 \* everything m depends on, directly or not (m itself only if it lies on a cycle)
 DependsOnPlus(c, m) == Closure(c, Succ(c, m))
@@ -120,7 +138,9 @@ WellFormed(c, log, status) ==
     /\ c.missing \subseteq 1..c.n
     /\ c.nopost \subseteq 1..c.n /\ c.nodtor \subseteq 1..c.n /\ c.noctor \subseteq 1..c.n
     \* without a constructor there is nobody to call module_depends()
-    /\ \A m \in c.noctor : c.deps[m] = <<>>
+    /\ \A m \in c.noctor : c.deps[m] = <<>> /\ AntiSeq(c, m) = <<>>
+    /\ "anti" \in DOMAIN c => DOMAIN c.anti = 1..c.n /\ \A m \in 1..c.n : Range(c.anti[m]) \subseteq (1..c.n) \ {m}
+    /\ Consistent(c)
     /\ \A i \in 1..Len(log) : /\ log[i].e \in Kinds
                               /\ log[i].m \in (IF log[i].e = "running" THEN {0} ELSE 1..c.n)
                               \* an entry point the shared object does not contain cannot have written a line
@@ -194,7 +214,11 @@ A_StopsClean(c, log, status) ==
 (* ---- BAD cases: "A genuine dependency cycle or an unloadable module aborts start-up ---- *)
 (* ---- with an error instead of running partially initialised."                       ---- *)
 
-A_AbortsWithError(c, log, status)  == status # 0
+\* "aborts with an error": the process ends by itself with a failure status - not killed by a memory fault (128 + SIGSEGV
+\* / SIGBUS as reported by the wrapper, or the sanitizer's own exit code 97), not after a hang (124: the wrapper's time limit,
+\* 137: SIGKILL).  An abort() of the daemon itself (134) is accepted as an abort with an error.
+CrashStatus == {97, 124, 135, 137, 139}
+A_AbortsWithError(c, log, status)  == status # 0 /\ status \notin CrashStatus
 A_NeverRunsPartial(c, log)         == ~IsRunning(log)
 
 (* ---- the whole contract, one named conjunct at a time ---- *)
